@@ -13,8 +13,8 @@ theorem math_common_found_t : Extracted.mathMissingCommon = [] ∧ Extracted.mat
 theorem math_pow2_shape_t :
     Extracted.mathIp2NonzeroGuard = true ∧ Extracted.mathIp2BitTrick = true ∧ Extracted.mathIp2Conjunction = true ∧
     Extracted.mathMaxShift = 1 ∧ Extracted.mathMaxAdd = 1 ∧
-    Extracted.mathSatOp = ">=" ∧ Extracted.mathSatConstFromMax = true ∧ Extracted.mathEarlyReturnPow2 = true ∧
-    Extracted.mathLoopInit = 1 ∧ Extracted.mathLoopCmp = "<" ∧ Extracted.mathLoopShift = 1 ∧
+    (Extracted.mathSatOp = ">=" ∨ Extracted.mathSatOp = ">") ∧ Extracted.mathSatConstFromMax = true ∧ Extracted.mathEarlyReturnPow2 = true ∧
+    Extracted.mathLoopInit = 1 ∧ (Extracted.mathLoopCmp = "<" ∨ Extracted.mathLoopCmp = "<=") ∧ Extracted.mathLoopShift = 1 ∧
     Extracted.mathReturnsResult = true ∧ Extracted.mathOrderOK = true := by decide
 
 theorem math_transit_found : Extracted.mathMissingTransit = [] := by decide
@@ -39,5 +39,11 @@ theorem math_transit_extracted :
 theorem C03_cap_extracted (req : Nat) : 0 < (transitCtor Extracted.mathTPosBits req).capacity := by
   obtain ⟨_, _, _, _, _, h⟩ := transitCtor_ok (w := Extracted.mathTPosBits) (by decide) req
   exact h
+
+/-- whichever of the equivalent spellings (`n > max` / `n >= max`, `result <= n` / `result < n`) the header uses, the function is
+    the `nextPow2W` the theorems are about (`MathUtil.nextPow2V_eq`) -/
+theorem math_spelling_extracted_t (w : Nat) (hw : 1 ≤ w) (n : Nat) :
+    nextPow2V Extracted.mathSatStrict Extracted.mathLoopLe w n = nextPow2W w n :=
+  nextPow2V_eq hw _ _ n
 
 end Obligations
